@@ -1,7 +1,7 @@
 (* Property C01 — longest match wins; ties broken by priority (maximal munch).
    This file contains only the final statement; the proof is in Engine/SpecProofs.v. *)
 From Coq Require Import List NArith.
-From LogosV Require Import Engine.Model Engine.Cert Engine.GraphBuild Engine.CertProofs Engine.SpecProofs Engine.StopProofs Engine.LexProofs Engine.BuildProofs Engine.GsimProofs Engine.ByteClass Engine.ByteClassProofs.
+From LogosV Require Import Engine.Model Engine.Cert Engine.GraphBuild Engine.CertProofs Engine.SpecProofs Engine.StopProofs Engine.LexProofs Engine.BuildProofs Engine.GsimProofs Engine.ByteClass Engine.ByteClassProofs Engine.Dedup Engine.DedupProofs Engine.DedupBuild.
 Local Open Scope N_scope.
 
 (* For every DFA d and graph g related by a valid certificate, every input w and every attempt
@@ -64,3 +64,21 @@ Proof. exact merge_canonical. Qed.
 
 Theorem C01_edge_condition_exact : forall rs b, ranges_ok rs -> byte_ok b -> cond_eval rs b = in_ranges b rs.
 Proof. exact cond_eval_sem. Qed.
+
+(* The de-duplication loop at the end of Graph::new (modelled by [dedup] in Engine/Dedup.v: states with
+   equal data folded into the first of them, edges redirected and merged, repeated until the size is
+   stable): on a graph whose edge classes are disjoint and whose targets exist it changes no walk of the
+   generated code, in either mode. *)
+Theorem C01_dedup_preserves_walks : forall g, wf_graph g = true -> closed_graph g = true ->
+  forall isprefix start hops rest, bytes_ok rest ->
+  walk g isprefix start hops rest (g_root g) start None
+  = walk (dedup g) isprefix start hops rest (g_root (dedup g)) start None.
+Proof. exact dedup_attempt. Qed.
+
+(* The complete modelled Graph::new — passes 1-4, then the loop — is correct for every raw DFA meeting
+   [build_side]; and so is the graph of the real Graph::new whenever the checker relates the two. *)
+Theorem C01_full_construction_correct : forall d g R,
+  build_side d = true -> gsim_ok (dedup (build d)) g R = true ->
+  forall start rest, bytes_ok rest -> rest <> nil ->
+  exists off, attempt_ref g false start rest = Acted (scan d (d_start d) rest start None) off.
+Proof. exact full_construction_correct. Qed.
